@@ -14,6 +14,7 @@ mod c18_interp;
 mod c22;
 mod engine;
 mod oracle;
+mod ptyrepl;
 mod rng;
 mod sess;
 mod workload;
